@@ -68,9 +68,40 @@ func (m *C08Monitor) AfterPass(r *Runner, pv *PassView) error {
 		}
 		if specObjectIDs(r.W.Store, newest)[id] {
 			circ := ""
-			if lifecycleOf(newest) == "Paused" && kubesim.AnnotationsOf(newest)["package-operator.run/paused-by-parent"] == "" {
-				// the newest revision was paused directly by the user: it reports Available from what it observes but adopts nothing
-				circ = ":newest-revision-paused-by-user"
+			// the revision doing the teardown: the pass's ObjectSet, or the ObjectSet controlling the pass's ObjectSetPhase
+			setKey := pv.OwnerKey
+			if pv.OwnerKey.Kind == "ObjectSetPhase" && pv.Owner != nil {
+				if cr, ok := engine.ControllerRef(pv.Owner); ok {
+					setKey = kubesim.Key{Group: engine.PKOGroup, Kind: "ObjectSet", Namespace: pv.OwnerKey.Namespace, Name: cr.Name}
+				}
+			}
+			if own := r.StateAt(setKey, base+ci); own != nil && setKey.Kind == "ObjectSet" {
+				listed := false
+				for _, e := range controllerOfList(asMap(own["status"])) {
+					if e.Kind == c.Key.Kind && e.Group == c.Key.Group && e.Name == c.Key.Name {
+						listed = true
+					}
+				}
+				if !listed {
+					// the outgoing revision controlled the object without reporting it in status.controllerOf (the report stops at
+					// the first phase whose probes fail), so the deployment saw no overlap with the newest revision
+					circ = ":outgoing-revision-underreports-controllerof"
+				}
+			}
+			if circ == "" {
+				// was the newest revision paused (by the user or through a paused deployment) when the outgoing revision was archived?
+				// A paused revision reports Available from what it observes but adopts nothing.
+				newestKey := kubesim.Key{Group: engine.PKOGroup, Kind: "ObjectSet", Namespace: kubesim.MetaString(newest, "namespace"), Name: kubesim.MetaString(newest, "name")}
+				for j := base + ci - 1; j >= 0; j-- {
+					ac := r.W.Store.Trace[j]
+					if ac.Actor == "pko" && ac.Verb == "update" && ac.Key == setKey && ac.Pre != nil && ac.Post != nil &&
+						lifecycleOf(ac.Pre) != "Archived" && lifecycleOf(ac.Post) == "Archived" {
+						if n := r.StateAt(newestKey, j); n != nil && (engine.Conditions(n)["Paused"].Status == "True" || lifecycleOf(n) == "Paused") {
+							circ = ":newest-revision-available-while-paused"
+						}
+						break
+					}
+				}
 			}
 			return Violf("C08", "shared-object-deleted-during-handover"+circ,
 				"pass %d (%s %s): deleted %s although the newest revision %s (rev %d) of the deployment contains it",
